@@ -339,7 +339,10 @@ struct ValueFlowAnalyzer : Analyzer {
                 const ValueType *dst = tok->valueType();
                 if (d == Direction::Forward && dst && value->isIntValue() && !value->isImpossible() && tok->astParent()->str() != "=") {
                     const size_t sz = dst->getSizeOf(settings, ValueType::Accuracy::ExactOrZero, ValueType::SizeOf::Pointer);
-                    if (sz > 0 && sz < sizeof(MathLib::biguint))
+                    if (dst->type == ValueType::Type::BOOL && dst->pointer == 0)
+                        // conversion to bool: 0 stays 0, every other value becomes 1
+                        value->intvalue = (value->intvalue != 0) ? 1 : 0;
+                    else if (sz > 0 && sz < sizeof(MathLib::biguint))
                         value->intvalue = ValueFlow::truncateIntValue(value->intvalue, sz, dst->sign);
                 }
                 std::string info("Compound assignment '" + tok->astParent()->str() + "', assigned value is " +
@@ -364,7 +367,16 @@ struct ValueFlowAnalyzer : Analyzer {
             const ValueType *dst = tok->valueType();
             if (dst) {
                 const size_t sz = dst->getSizeOf(settings, ValueType::Accuracy::ExactOrZero, ValueType::SizeOf::Pointer);
-                if (sz > 0 && sz < sizeof(MathLib::biguint)) {
+                if (dst->type == ValueType::Type::BOOL && dst->pointer == 0 && d == Direction::Forward && value->isIntValue()) {
+                    // the result is converted to bool: 0 stays 0, every other value becomes 1
+                    if (!value->isImpossible())
+                        value->intvalue = (value->intvalue != 0) ? 1 : 0;
+                    else {
+                        // no fact about the old value survives, a bool is never >= 2
+                        value->intvalue = 2;
+                        value->bound = ValueFlow::Value::Bound::Lower;
+                    }
+                } else if (sz > 0 && sz < sizeof(MathLib::biguint)) {
                     MathLib::bigint newvalue = ValueFlow::truncateIntValue(value->intvalue, sz, dst->sign);
 
                     /* Handle overflow/underflow for value bounds */
